@@ -24,6 +24,10 @@ type c01Input struct {
 	Stack string      `json:"stack"`
 	C     tk.EPConfig `json:"c"`
 	S     tk.EPConfig `json:"s"`
+	// the second connection of a pair with session caches may use reconfigured endpoints (same caches unless the
+	// new configuration drops its cache): it is judged as a pair of these configurations
+	C2 *tk.EPConfig `json:"c2,omitempty"`
+	S2 *tk.EPConfig `json:"s2,omitempty"`
 }
 
 var c01Alpn = map[string]int{"h2": 1, "http/1.1": 2, "proto-a": 3, "proto-b": 4, "x": 5}
@@ -73,8 +77,18 @@ func c01AddCase(out *emit.Out, scenario string, in c01Input) {
 	// with a session cache on both sides the same pair connects again: an abbreviated handshake
 	// when the library offers one, held to the same agreement clauses
 	if in.C.Cache != "" && in.S.Cache != "" && cr.Err == "" && sr.Err == "" && !hung {
-		cr2, sr2, hung2, echo2 := c01Connect(scenario, in, reg)
-		c01Emit(out, scenario+"-second-connection", in, cr2, sr2, hung2, echo2)
+		in2 := in
+		sc2 := scenario + "-second-connection"
+		if in.C2 != nil {
+			in2.C = *in.C2
+			sc2 = scenario + "-second-connection-reconfigured"
+		}
+		if in.S2 != nil {
+			in2.S = *in.S2
+			sc2 = scenario + "-second-connection-reconfigured"
+		}
+		cr2, sr2, hung2, echo2 := c01Connect(scenario, in2, reg)
+		c01EmitSecond(out, sc2, in2, cr2, sr2, hung2, echo2, cr.Suite)
 	}
 }
 
@@ -155,6 +169,11 @@ func c01Connect(scenario string, in c01Input, reg *tk.Registry) (cr, sr tk.EPRes
 }
 
 func c01Emit(out *emit.Out, scenario string, in c01Input, cr, sr tk.EPResult, hung, echo bool) {
+	c01EmitSecond(out, scenario, in, cr, sr, hung, echo, 0)
+}
+
+// prev != 0: a later connection of the pair; prev is the suite of the first one (the session's)
+func c01EmitSecond(out *emit.Out, scenario string, in c01Input, cr, sr tk.EPResult, hung, echo bool, prev uint16) {
 	pk := tk.GetPKI()
 	direct := ""
 	if cr.Panic != "" || sr.Panic != "" {
@@ -201,9 +220,13 @@ func c01Emit(out *emit.Out, scenario string, in c01Input, cr, sr tk.EPResult, hu
 		in.C.MinVersion, in.C.MaxVersion, b(srvChainOK), b(acceptable))
 	coqS := fmt.Sprintf("(mkS %s %s %s %s %d %d %s %s)", c01Suites(in.S.Suites), b(srvHasKeys), c07Policies[in.S.Auth], c01L(in.S.ALPN), in.S.MinVersion, in.S.MaxVersion, b(cliChainOK), b(cliEncOK))
 	agree := cr.Version == sr.Version && cr.Suite == sr.Suite && cr.ALPN == sr.ALPN && cr.Resumed == sr.Resumed
+	ctor, tail := "PairCase", ""
+	if prev != 0 {
+		ctor, tail = "SecondCase", fmt.Sprintf(" %s %d", b(cr.Resumed && sr.Resumed), prev)
+	}
 	out.Add(emit.Case{Scenario: scenario + "/" + in.Stack, Trivial: false, Input: in, Direct: direct,
 		Observed: map[string]interface{}{"client": cr, "server": sr, "echo": echo, "certs_match": certsMatch},
-		Coq: fmt.Sprintf("PairCase %s %s %s %s %d %d %d%%nat %s %s %s %s", coqC, coqS, b(cr.Err == "" && cr.Complete), b(sr.Err == "" && sr.Complete),
+		Coq: fmt.Sprintf(ctor+" %s %s %s %s %d %d %d%%nat %s %s %s %s"+tail, coqC, coqS, b(cr.Err == "" && cr.Complete), b(sr.Err == "" && sr.Complete),
 			cr.Suite, c01Alpn[cr.ALPN], len(sr.PeerCerts), b(sr.VerifiedChains > 0), b(agree), b(certsMatch), b(echo))})
 }
 
@@ -253,6 +276,7 @@ func runC01(p params) error {
 		n = 6000
 	}
 	gen := func(i int) c01Input {
+		var second [2]*tk.EPConfig
 		valid := r.IntN(10) < 7 // mostly-valid stream; the rest exercises the failure paths
 		pick := func(good []string, bad []string) string {
 			if valid || r.IntN(2) == 0 {
@@ -293,6 +317,22 @@ func runC01(p params) error {
 		if r.IntN(3) == 0 {
 			c.Cache, s.Cache = "c", "s"
 		}
+		if c.Cache != "" && r.IntN(2) == 0 {
+			// the second connection finds one end reconfigured: other suites, or the cache gone
+			c2, s2 := c, s
+			switch r.IntN(4) {
+			case 0:
+				s2.Suites = suiteSets()
+			case 1:
+				s2.Cache = ""
+			case 2:
+				c2.Suites = suiteSets()
+			case 3:
+				s2.Suites = []uint16{all[r.IntN(4)], all[r.IntN(4)]}
+				s2.ALPN = alpns[r.IntN(len(alpns))]
+			}
+			second = [2]*tk.EPConfig{&c2, &s2}
+		}
 		// where the key pairs come from: the Certificates list, the Get* callbacks, or one of each
 		c.CertVia = []string{"", "", "cb", "mixed"}[r.IntN(4)]
 		s.CertVia = []string{"", "", "cb", "mixed"}[r.IntN(4)]
@@ -302,7 +342,13 @@ func runC01(p params) error {
 		if r.IntN(14) == 0 {
 			s.MinVersion = []uint16{0x0101, 0x0102}[r.IntN(2)]
 		}
-		return c01Input{Stack: []string{"tlcp", "dtlcp"}[i%2], C: c, S: s}
+		in := c01Input{Stack: []string{"tlcp", "dtlcp"}[i%2], C: c, S: s}
+		if second[0] != nil {
+			// the reconfigured ends get their key pairs the same way as before
+			second[0].CertVia, second[1].CertVia = c.CertVia, s.CertVia
+			in.C2, in.S2 = second[0], second[1]
+		}
+		return in
 	}
 	// baseline: every suite alone and the defaults, both stacks
 	for _, st := range []string{"tlcp", "dtlcp"} {
@@ -322,6 +368,26 @@ func runC01(p params) error {
 						S: tk.EPConfig{Ident: "srv", CertVia: via, Auth: 4, PMTU: 4000, Cache: "s", ALPN: []string{"h2", "http/1.1"}}})
 				}
 			}
+		}
+	}
+	// the second connection of a pair finds the server restricted to a suite other than the session's, without its
+	// cache, or the client restricted to another suite
+	for _, st := range []string{"tlcp", "dtlcp"} {
+		c := tk.EPConfig{Ident: "cli", ServerName: "server.test", PMTU: 4000, Cache: "c", ALPN: []string{"h2"}}
+		s := tk.EPConfig{Ident: "srv", PMTU: 4000, Cache: "s", ALPN: []string{"h2", "http/1.1"}}
+		for k := 0; k < 4; k++ {
+			c2, s2 := c, s
+			switch k {
+			case 0:
+				s2.Suites = []uint16{0xe013}
+			case 1:
+				s2.Cache = ""
+			case 2:
+				c2.Suites = []uint16{0xe013, 0xe011}
+			case 3:
+				s2.Suites = []uint16{0xe051, 0xe011}
+			}
+			c01AddCase(out, "reconfigured-between-connections", c01Input{Stack: st, C: c, S: s, C2: &c2, S2: &s2})
 		}
 	}
 	for i := 0; i < n; i++ {
